@@ -97,7 +97,7 @@ def reasonS : Reason → String
   | .provisionerNotFound => "notfound" | .uninitialized => "uninitialized"
   | .notImplemented => "notimplemented" | .renewDisabled => "disabled"
   | .notYetValid => "notyetvalid" | .expired => "expired" | .customRefused => "custom"
-  | .keyRejected => "key"
+  | .keyRejected => "key" | .notLongerThanBackdate => "short"
 
 def noFields : Fields :=
   { rawSubject := [], keyUsage := 0, extKeyUsage := [], unknownExtKeyUsage := [], unhandledCritical := [],
